@@ -17,9 +17,12 @@ def Allowed (stalled : Nat → Prop) (a : Label) : Prop :=
 def Departed (stalled : Nat → Prop) (s : State) : Prop :=
   ∀ i u, s.subs[i]? = some u → stalled i → u.ctxDone = true
 
+/-- The `Close` counters. -/
+def Cnt (s : State) : Nat × Nat × Nat × Nat := (s.cq, s.cl, s.cw, s.cr)
+
 /-- Nothing but subscriber-local data (and `epc`, ghosts) changed. -/
 def Same (s s' : State) : Prop :=
-  s'.p = s.p ∧ s'.bc = s.bc ∧ s'.closed = s.closed ∧ s'.waitS = s.waitS ∧
+  s'.p = s.p ∧ Cnt s' = Cnt s ∧ s'.closed = s.closed ∧ s'.waitS = s.waitS ∧
   s'.subs.map (·.ctxDone) = s.subs.map (·.ctxDone)
 
 theorem Same.refl (s : State) : Same s s := ⟨rfl, rfl, rfl, rfl, rfl⟩
@@ -174,10 +177,7 @@ theorem invCap_step {s s' : State} {a : Label} (h : InvCap cfg s) (hst : step cf
     obtain ⟨_, hs, _⟩ := procStep_p (by simpa [step] using hst)
     rw [hs]; exact h
   case closeCall =>
-    simp only [step, closeCall] at hst
-    split at hst <;> try contradiction
-    obtain ⟨p', hp, rfl⟩ := Option.map_eq_some_iff.mp hst
-    exact h
+    rcases closeCall_cases (by simpa [step] using hst) with ⟨p', hp, _, rfl⟩ | ⟨_, rfl⟩ <;> exact h
   case subAcquire =>
     bstep hst
     · exact h
@@ -340,7 +340,7 @@ theorem fanout (hfix : cfg.fixed = true) (hcap : 0 < cfg.cap)
 or its context has ended (whatever its buffer holds), or its buffer has room. -/
 theorem execute_completes_room (hfix : cfg.fixed = true) (hcap : 0 < cfg.cap) {s : State} (hr : Reach (lts cfg) s)
     {r : It} (hpc : s.p.pc = .running r) (hd : PassableFrom stalled cfg.cap 0 s) :
-    ∃ s', St cfg stalled s s' ∧ s'.p = { s.p with pc := .top } ∧ s'.epc = .idle ∧ s'.bc = s.bc ∧
+    ∃ s', St cfg stalled s s' ∧ s'.p = { s.p with pc := .top } ∧ s'.epc = .idle ∧ Cnt s' = Cnt s ∧
       s'.closed = s.closed ∧ s'.waitS = s.waitS := by
   have hC := invCtl hr
   have h1 : ∃ s1 i, St cfg stalled s s1 ∧ s1.epc = .sending r i ∧ Same s s1 ∧ s1.subs = s.subs := by
@@ -376,7 +376,7 @@ theorem execute_completes_room (hfix : cfg.fixed = true) (hcap : 0 < cfg.cap) {s
 the lock or anywhere in the fan-out), the callback returns and the loop is back at its top. -/
 theorem execute_completes (hfix : cfg.fixed = true) (hcap : 0 < cfg.cap) {s : State} (hr : Reach (lts cfg) s)
     {r : It} (hpc : s.p.pc = .running r) (hd : Departed stalled s) :
-    ∃ s', St cfg stalled s s' ∧ s'.p = { s.p with pc := .top } ∧ s'.epc = .idle ∧ s'.bc = s.bc ∧
+    ∃ s', St cfg stalled s s' ∧ s'.p = { s.p with pc := .top } ∧ s'.epc = .idle ∧ Cnt s' = Cnt s ∧
       s'.closed = s.closed ∧ s'.waitS = s.waitS ∧ Departed stalled s' := by
   have hC := invCtl hr
   -- reach `sending`
@@ -409,25 +409,27 @@ theorem execute_completes (hfix : cfg.fixed = true) (hcap : 0 < cfg.cap) {s : St
 
 /-! ### lifting paths of the processor LTS -/
 
-theorem proc_internal {l : PLabel} (h : l.isInternal = true) : (Label.proc l).isInternal = true := h
+theorem proc_internal {l : PLabel} (h : l.isInternal = true) : (Label.proc l).isInternal = true := by
+  cases l <;> simp_all [Label.isInternal, Processor.Label.isInternal, Processor.Label.isLoop]
 
 /-- Every path of internal processor steps lifts to the batcher: the steps are the batcher's own
 `.proc` steps, and where the processor path says "the callback returns" the batcher first completes
-its fan-out. -/
+its fan-out.  (The return of `queue.Close()` to the call that won the CAS moves that call on to the
+batcher's lock: `cl` may grow.) -/
 theorem lift (hfix : cfg.fixed = true) (hcap : 0 < cfg.cap) {p p' : PState}
     (hp : Steps (Processor.lts pcfg) (fun l => l.isInternal = true) p p') :
     ∀ {s : State}, Reach (lts cfg) s → s.p = p → Departed stalled s →
-      ∃ s', St cfg stalled s s' ∧ s'.p = p' ∧ s'.bc = s.bc ∧ s'.closed = s.closed ∧ s'.waitS = s.waitS ∧
-        Departed stalled s' := by
+      ∃ s', St cfg stalled s s' ∧ s'.p = p' ∧ s'.cq = s.cq ∧ s.cl ≤ s'.cl ∧ s'.cw = s.cw ∧ s'.cr = s.cr ∧
+        s'.closed = s.closed ∧ s'.waitS = s.waitS ∧ Departed stalled s' := by
   induction hp with
-  | refl p => intro s _ hs hd; exact ⟨s, Steps.refl _, hs, rfl, rfl, rfl, hd⟩
+  | refl p => intro s _ hs hd; exact ⟨s, Steps.refl _, hs, rfl, Nat.le_refl _, rfl, rfl, rfl, rfl, hd⟩
   | @cons p p1 p2 l hl hst _ ih =>
     intro s hr hs hd
     subst hs
     have hst' : Processor.step pcfg s.p l = some p1 := hst
     -- one lifted step
-    have h1 : ∃ s1, St cfg stalled s s1 ∧ s1.p = p1 ∧ s1.bc = s.bc ∧ s1.closed = s.closed ∧ s1.waitS = s.waitS ∧
-        Departed stalled s1 := by
+    have h1 : ∃ s1, St cfg stalled s s1 ∧ s1.p = p1 ∧ s1.cq = s.cq ∧ s.cl ≤ s1.cl ∧ s1.cw = s.cw ∧ s1.cr = s.cr ∧
+        s1.closed = s.closed ∧ s1.waitS = s.waitS ∧ Departed stalled s1 := by
       by_cases hcb : l = .cbReturn
       · subst hcb
         have hrun : ∃ r, s.p.pc = .running r := by
@@ -435,7 +437,8 @@ theorem lift (hfix : cfg.fixed = true) (hcap : 0 < cfg.cap) {p p' : PState}
           split at hst' <;> simp_all
         obtain ⟨r, hrun⟩ := hrun
         obtain ⟨s1, hs1, hp1, _, hb, hc, hw, hd1⟩ := execute_completes hfix hcap hr hrun hd
-        refine ⟨s1, hs1, ?_, hb, hc, hw, hd1⟩
+        simp only [Cnt, Prod.mk.injEq] at hb
+        refine ⟨s1, hs1, ?_, hb.1, by omega, hb.2.2.1, hb.2.2.2, hc, hw, hd1⟩
         rw [hp1]
         simp [Processor.step, hrun] at hst'
         exact hst'
@@ -445,13 +448,21 @@ theorem lift (hfix : cfg.fixed = true) (hcap : 0 < cfg.cap) {p p' : PState}
             simp only [Processor.step] at hst'
             split at hst' <;> simp_all
           obtain ⟨r, hpop⟩ := hpop
-          refine ⟨{ s with p := p1, epc := .waiting r }, st_one (a := .proc .cbStart) (allowed_int rfl) ?_, rfl, rfl, rfl, rfl, hd⟩
+          refine ⟨{ s with p := p1, epc := .waiting r }, st_one (a := .proc .cbStart) (allowed_int rfl) ?_, rfl, rfl,
+            Nat.le_refl _, rfl, rfl, rfl, rfl, hd⟩
           simp [step, procStep, hpop, hst']
-        · refine ⟨{ s with p := p1 }, st_one (a := .proc l) (allowed_int (proc_internal hl)) ?_, rfl, rfl, rfl, rfl, hd⟩
-          cases l <;> simp_all [step, procStep, Processor.Label.isInternal, Processor.Label.isLoop]
-    obtain ⟨s1, hs1, hp1, hb1, hc1, hw1, hd1⟩ := h1
-    obtain ⟨s', hs2, hp', hb2, hc2, hw2, hd2⟩ := ih (hs1.reach hr) hp1 hd1
-    exact ⟨s', hs1.trans hs2, hp', hb2.trans hb1, hc2.trans hc1, hw2.trans hw1, hd2⟩
+        · by_cases hcr : l = .closeReturn
+          · subst hcr
+            refine ⟨{ s with p := p1, cl := s.cl + 1 }, st_one (a := .proc .closeReturn) (allowed_int rfl) ?_, rfl, rfl,
+              Nat.le_succ _, rfl, rfl, rfl, rfl, hd⟩
+            simp [step, procStep, hst']
+          · refine ⟨{ s with p := p1 }, st_one (a := .proc l) (allowed_int ?_) ?_, rfl, rfl, Nat.le_refl _, rfl, rfl, rfl, rfl, hd⟩
+            · cases l <;> simp_all [Label.isInternal, Processor.Label.isInternal, Processor.Label.isLoop]
+            · cases l <;> simp_all [step, procStep, Processor.Label.isInternal, Processor.Label.isLoop]
+    obtain ⟨s1, hs1, hp1, hq1, hl1, hw1, hr1, hc1, hws1, hd1⟩ := h1
+    obtain ⟨s', hs2, hp', hq2, hl2, hw2, hr2, hc2, hws2, hd2⟩ := ih (hs1.reach hr) hp1 hd1
+    exact ⟨s', hs1.trans hs2, hp', hq2.trans hq1, Nat.le_trans hl1 hl2, hw2.trans hw1, hr2.trans hr1, hc2.trans hc1,
+      hws2.trans hws1, hd2⟩
 
 theorem Steps.mono {σ α : Type} {M : LTS σ α} {p q : α → Prop} (h : ∀ a, p a → q a) {s s' : σ}
     (hs : Steps M p s s') : Steps M q s s' := by
@@ -587,16 +598,18 @@ theorem queue_close_completes {p : PState} (hr : Reach (Processor.lts pcfg) p) (
     obtain ⟨p', h2, h3⟩ := hCh _ (Steps.reach (pst_one s1) hr) rfl
     exact ⟨p', (pst_one s1).trans h2, h3⟩
 
-/-! ### `Close` completes -/
+/-! ### every `Close` call completes -/
 
-/-- When `queue.Close()` has returned the lock is free. -/
-theorem lockFree_of_qclosed {s : State} (hr : Reach (lts cfg) s) (hq : s.p.cpc = .returned) : s.epc = .idle := by
+/-- When the processor's running token belongs to `Close` the loop is gone and the lock is free. -/
+theorem lockFree_of_qclosed {s : State} (hr : Reach (lts cfg) s)
+    (hq : s.p.cpc = .tokenTaken ∨ s.p.cpc = .returned) : s.epc = .idle ∧ s.p.pc = .absent ∧ s.p.token = .close := by
   have hC := invCtl hr
   have hA := Processor.invA (reach_proj hr)
   unfold Processor.InvA at hA
-  have ht : s.p.token = .close := hA.2.1.mpr (Or.inr hq)
+  have ht : s.p.token = .close := hA.2.1.mpr hq
   have hpc : s.p.pc = .absent := by
     cases hp : s.p.pc <;> first | rfl | (have := hA.1.mpr (by simp [hp]); rw [ht] at this; cases this)
+  refine ⟨?_, hpc, ht⟩
   cases he : s.epc with
   | idle => rfl
   | waiting r => have := hC.2.1 r he; rw [hpc] at this; cases this
@@ -604,22 +617,22 @@ theorem lockFree_of_qclosed {s : State} (hr : Reach (lts cfg) s) (hq : s.p.cpc =
 
 /-- After `closeCh` is closed every forwarder leaves and removes its subscriber. -/
 theorem fwds_done (hfix : cfg.fixed = true) :
-    ∀ (n : Nat) {s : State}, Reach (lts cfg) s → n ≤ s.subs.length → s.closed = true → s.epc = .idle → s.bc = .waiting →
+    ∀ (n : Nat) {s : State}, Reach (lts cfg) s → n ≤ s.subs.length → s.closed = true → s.epc = .idle →
       ∃ s', St cfg stalled s s' ∧ (∀ j u, j < n → s'.subs[j]? = some u → u.pc = .done) ∧ s'.closed = true ∧
-        s'.epc = .idle ∧ s'.bc = .waiting ∧ s'.subs.length = s.subs.length := by
+        s'.epc = .idle ∧ Cnt s' = Cnt s ∧ s'.p = s.p ∧ s'.subs.length = s.subs.length := by
   intro n
   induction n with
-  | zero => intro s _ _ hc he hb; exact ⟨s, Steps.refl _, by intro j u hj; omega, hc, he, hb, rfl⟩
+  | zero => intro s _ _ hc he; exact ⟨s, Steps.refl _, by intro j u hj; omega, hc, he, rfl, rfl, rfl⟩
   | succ n ih =>
-    intro s hr hn hc he hb
-    obtain ⟨s1, hs1, hdone1, hc1, he1, hb1, hlen1⟩ := ih hr (by omega) hc he hb
+    intro s hr hn hc he
+    obtain ⟨s1, hs1, hdone1, hc1, he1, hb1, hp1, hlen1⟩ := ih hr (by omega) hc he
     have hr1 := hs1.reach hr
     have hlt : n < s1.subs.length := by omega
     have hi : s1.subs[n]? = some s1.subs[n] := List.getElem?_eq_getElem hlt
     generalize s1.subs[n] = u at hi
     have hS := invSub hr1 u (List.mem_of_getElem? hi)
     by_cases hd : u.pc = .done
-    · refine ⟨s1, hs1, ?_, hc1, he1, hb1, hlen1⟩
+    · refine ⟨s1, hs1, ?_, hc1, he1, hb1, hp1, hlen1⟩
       intro j v hj hv
       by_cases hjn : j = n
       · subst hjn; rw [hi] at hv; cases hv; exact hd
@@ -630,45 +643,110 @@ theorem fwds_done (hfix : cfg.fixed = true) :
       have hlf : lockFree (setSub s1 n u') = true := by simp [lockFree, setSub, he1]
       have h3 := do_remove (cfg := cfg) hi' hpc' hlf
       rw [setSub_setSub] at h3
-      refine ⟨_, hs1.trans (hs2.trans (st_one (allowed_int rfl) h3)), ?_, hc1, he1, hb1, by simp [setSub, hlen1]⟩
+      refine ⟨_, hs1.trans (hs2.trans (st_one (allowed_int rfl) h3)), ?_, hc1, he1, hb1, hp1, by simp [setSub, hlen1]⟩
       intro j v hj hv
       rcases getElem?_set_cases (by simpa [setSub] using hv) with ⟨_, rfl, _⟩ | ⟨hne, hv'⟩
       · rfl
       · exact hdone1 j v (by omega) hv'
 
-/-- **`Close` completes**: from every reachable state in which `Close` has been called. -/
+/-- The calls that lost the processor's CAS leave `queue.Close()` once the winner holds the token. -/
+theorem losers_leave : ∀ (n : Nat) {s : State}, s.cq = n → s.p.stopped = true → s.p.pc = .absent → s.p.token = .close →
+    ∃ s', St cfg stalled s s' ∧ s'.cq = 0 ∧ s'.cl = s.cl + n ∧ s'.cw = s.cw ∧ s'.cr = s.cr ∧
+      s'.p.cpc = s.p.cpc ∧ s'.closed = s.closed := by
+  intro n
+  induction n with
+  | zero => intro s h _ _ _; exact ⟨s, Steps.refl _, h, rfl, rfl, rfl, rfl, rfl⟩
+  | succ n ih =>
+    intro s h hst hpc htok
+    have h1 : step cfg s (.proc .closeAgain) =
+        some { s with p := { s.p with log := .closeRet :: s.p.log }, cq := s.cq - 1, cl := s.cl + 1 } := by
+      simp [step, procStep, h, Processor.step, hst, hpc, htok]
+    obtain ⟨s', h2, a, b, c, d, e, f⟩ := ih (s := { s with p := { s.p with log := .closeRet :: s.p.log }, cq := s.cq - 1, cl := s.cl + 1 })
+      (by simp [h]) hst hpc htok
+    exact ⟨s', (st_one (allowed_int rfl) h1).trans h2, a, by simp at b; omega, c, d, e, f⟩
+
+/-- The calls waiting for the lock pass through their critical section. -/
+theorem lockers_pass : ∀ (n : Nat) {s : State}, s.cl = n → s.epc = .idle →
+    ∃ s', St cfg stalled s s' ∧ s'.cl = 0 ∧ s'.cw = s.cw + n ∧ s'.cq = s.cq ∧ s'.cr = s.cr ∧ s'.p = s.p ∧
+      s'.epc = .idle ∧ (0 < n → s'.closed = true) ∧ (s.closed = true → s'.closed = true) ∧ s'.subs = s.subs := by
+  intro n
+  induction n with
+  | zero => intro s h he; exact ⟨s, Steps.refl _, h, rfl, rfl, rfl, rfl, he, by omega, id, rfl⟩
+  | succ n ih =>
+    intro s h he
+    have h1 : step cfg s .closeLock = some { s with closed := true, cl := s.cl - 1, cw := s.cw + 1 } := by
+      simp [step, closeLock, h, lockFree, he]
+    obtain ⟨s', h2, a, b, c, d, e, f, _, g, k⟩ := ih (s := { s with closed := true, cl := s.cl - 1, cw := s.cw + 1 }) (by simp [h]) he
+    exact ⟨s', (st_one (allowed_int rfl) h1).trans h2, a, by simp at b; omega, c, d, e, f, fun _ => g rfl, fun _ => g rfl, k⟩
+
+/-- The calls in `wg.Wait()` return once every forwarder is done. -/
+theorem waiters_return : ∀ (n : Nat) {s : State}, s.cw = n → allDone s = true →
+    ∃ s', St cfg stalled s s' ∧ s'.cw = 0 ∧ s'.cr = s.cr + n ∧ s'.cq = s.cq ∧ s'.cl = s.cl ∧ s'.p = s.p := by
+  intro n
+  induction n with
+  | zero => intro s h _; exact ⟨s, Steps.refl _, h, rfl, rfl, rfl, rfl⟩
+  | succ n ih =>
+    intro s h hall
+    have h1 : step cfg s .closeReturn = some { s with cw := s.cw - 1, cr := s.cr + 1 } := by
+      simp [step, closeReturn, h, hall]
+    obtain ⟨s', h2, a, b, c, d, e⟩ := ih (s := { s with cw := s.cw - 1, cr := s.cr + 1 }) (by simp [h]) (by simpa [allDone] using hall)
+    exact ⟨s', (st_one (allowed_int rfl) h1).trans h2, a, by simp at b; omega, c, d, e⟩
+
+/-- **Every `Close` call completes**: from every reachable state in which `Close` has been called
+(by any number of callers, in any phase), all of them return: none is left inside `queue.Close()`,
+waiting for the lock or in `wg.Wait()`, the processor's `Close` has returned, and at least one
+`Close` has returned. -/
 theorem close_completes (hfix : cfg.fixed = true) (hcap : 0 < cfg.cap) {s : State} (hr : Reach (lts cfg) s)
-    (hb : s.bc ≠ .idle) (hd : Departed stalled s) : ∃ s', St cfg stalled s s' ∧ s'.bc = .returned := by
-  -- from `waiting`
-  have hW : ∀ t : State, Reach (lts cfg) t → t.bc = .waiting → ∃ s', St cfg stalled t s' ∧ s'.bc = .returned := by
-    intro t ht hbt
-    have hC := invCtl ht
-    have hcl : t.closed = true := hC.2.2.2.1.mpr (Or.inl hbt)
-    have he : t.epc = .idle := lockFree_of_qclosed ht (hC.2.2.2.2.1 hcl)
-    obtain ⟨t1, h1, hdone, _, _, hb1, _⟩ := fwds_done (cfg := cfg) (stalled := stalled) hfix t.subs.length ht (Nat.le_refl _) hcl he hbt
-    have hall : allDone t1 = true := by
-      simp only [allDone, List.all_eq_true, beq_iff_eq]
-      intro u hu
-      obtain ⟨j, hj, hju⟩ := List.getElem_of_mem hu
-      exact hdone j u (by omega) (by rw [List.getElem?_eq_getElem hj, hju])
-    have h2 : step cfg t1 .closeReturn = some { t1 with bc := .returned } := by
-      simp [step, closeReturn, hb1, hall]
-    exact ⟨_, h1.trans (st_one (allowed_int rfl) h2), rfl⟩
-  cases hbc : s.bc with
-  | idle => exact absurd hbc hb
-  | returned => exact ⟨s, Steps.refl _, hbc⟩
-  | waiting => exact hW s hr hbc
-  | inQueue =>
-    have hC := invCtl hr
-    have hcpc : s.p.cpc ≠ .idle := fun h => by have := hC.2.2.2.2.2.1.mpr h; rw [hbc] at this; cases this
-    obtain ⟨p', hp, hret⟩ := queue_close_completes (reach_proj hr) hcpc
-    obtain ⟨s1, h1, hp1, hb1, _, _, _⟩ := lift (cfg := cfg) (stalled := stalled) hfix hcap hp hr rfl hd
-    have hr1 := h1.reach hr
-    have he1 : s1.epc = .idle := lockFree_of_qclosed hr1 (by rw [hp1]; exact hret)
-    have h2 : step cfg s1 .closeLock = some { s1 with closed := true, bc := .waiting } := by
-      simp [step, closeLock, hb1, hbc, hp1, hret, lockFree, he1]
-    have hst2 : St cfg stalled s1 _ := st_one (allowed_int rfl) h2
-    obtain ⟨s', h3, hret'⟩ := hW _ (hst2.reach hr1) rfl
-    exact ⟨s', (h1.trans hst2).trans h3, hret'⟩
+    (hb : s.p.stopped = true) (hd : Departed stalled s) :
+    ∃ s', St cfg stalled s s' ∧ s'.cq = 0 ∧ s'.cl = 0 ∧ s'.cw = 0 ∧ s'.p.cpc = .returned ∧ 0 < s'.cr ∧
+      s.cr ≤ s'.cr := by
+  have hA := Processor.invA (reach_proj hr)
+  have hcpc : s.p.cpc ≠ .idle := fun h => by
+    have := hA.2.2.1.mpr h; rw [hb] at this; cases this
+  -- A: the winner's `queue.Close()` returns
+  obtain ⟨p', hp, hret⟩ := queue_close_completes (reach_proj hr) hcpc
+  obtain ⟨s1, h1, hp1, hq1, hl1, hw1, hr1', _, _, _⟩ := lift (cfg := cfg) (stalled := stalled) hfix hcap hp hr rfl hd
+  have hr1 := h1.reach hr
+  have hret1 : s1.p.cpc = .returned := by rw [hp1]; exact hret
+  obtain ⟨he1, hpc1, htok1⟩ := lockFree_of_qclosed hr1 (Or.inr hret1)
+  have hst1 : s1.p.stopped = true := by
+    have hA1 := Processor.invA (reach_proj hr1)
+    cases hs : s1.p.stopped with
+    | true => rfl
+    | false => have := hA1.2.2.1.mp hs; rw [hret1] at this; cases this
+  -- B: the losers leave `queue.Close()`
+  obtain ⟨s2, h2, hq2, hl2, hw2, hr2', hcpc2, hcl2⟩ := losers_leave (cfg := cfg) (stalled := stalled) s1.cq rfl hst1 hpc1 htok1
+  have hr2 := h2.reach hr1
+  have hret2 : s2.p.cpc = .returned := hcpc2.trans hret1
+  obtain ⟨he2, _, _⟩ := lockFree_of_qclosed hr2 (Or.inr hret2)
+  -- the winner's return has put at least one call at the lock, unless it is already further on
+  have hC2 := invCtl hr2
+  -- C: the lock sections
+  obtain ⟨s3, h3, hl3, hw3, hq3, hr3', hp3, he3, hcl3, hclk3, hsubs3⟩ := lockers_pass (cfg := cfg) (stalled := stalled) s2.cl rfl he2
+  have hr3 := h3.reach hr2
+  -- some call is past the lock (or has returned): `closed` holds
+  have hsome : 0 < s3.cw ∨ 0 < s3.cr := by
+    have hC1 := invCtl hr1
+    -- conservation along A: the winner's return incremented `cl` unless it had returned before; in
+    -- every case cl + cw + cr > 0 once cpc = returned
+    have hpos : 0 < s1.cl + s1.cw + s1.cr := close_count_pos hr1 hret1
+    omega
+  have hclosed3 : s3.closed = true := (invCtl hr3).2.2.2.2.1 hsome
+  -- D: the forwarders leave
+  obtain ⟨s4, h4, hdone4, hcl4, he4, hcnt4, hp4, hlen4⟩ := fwds_done (cfg := cfg) (stalled := stalled) hfix s3.subs.length hr3 (Nat.le_refl _) hclosed3 he3
+  have hall : allDone s4 = true := by
+    simp only [allDone, List.all_eq_true, beq_iff_eq]
+    intro u hu
+    obtain ⟨j, hj, hju⟩ := List.getElem_of_mem hu
+    exact hdone4 j u (by omega) (by rw [List.getElem?_eq_getElem hj, hju])
+  simp only [Cnt, Prod.mk.injEq] at hcnt4
+  -- E: the waiting calls return
+  obtain ⟨s5, h5, hw5, hr5', hq5, hl5, hp5⟩ := waiters_return (cfg := cfg) (stalled := stalled) s4.cw rfl hall
+  refine ⟨s5, (((h1.trans h2).trans h3).trans h4).trans h5, ?_, ?_, hw5, ?_, ?_, ?_⟩
+  · rw [hq5, hcnt4.1, hq3, hq2]
+  · rw [hl5, hcnt4.2.1, hl3]
+  · rw [hp5, hp4, hp3]; exact hret2
+  · rw [hr5', hcnt4.2.2.2, hcnt4.2.2.1]; omega
+  · rw [hr5', hcnt4.2.2.2, hr3', hr2', hr1']; omega
 
 end Kit.Batcher
